@@ -205,7 +205,7 @@ Proof.
   set (h2 := h1 ++ [mkObj KDict cs']) in *.
   destruct (init_M h2 c K (linker_iargs h2 K (length h1) (k_linker_name K))) as [[h3 r3] ok] eqn:I.
   cbn [fst snd] in H, FK. destruct ok; [|discriminate].
-  destruct (dc_entries h3 (filter (fun kv => negb (fst kv =? KP)) (ocells o))) as [[h4 es]|] eqn:E; [|discriminate].
+  destruct (dc_entries_pol (k_single_memo K) h3 (filter (fun kv => negb (fst kv =? KP)) (ocells o))) as [[h4 es]|] eqn:E; [|discriminate].
   destruct (nth_error h4 r3) as [o'|] eqn:Eo'; [|discriminate].
   inversion H; subst r'; clear H.
   set (N := length h).
@@ -234,7 +234,7 @@ Proof.
     { apply init_actions_above. apply linker_iargs_above. unfold h0. rewrite app_length; simpl. lia. }
     destruct (actions_kinds _ _ _ _ _ R W0 ltac:(unfold h0; rewrite app_length; simpl; lia) AB0 (length h2) _ (nth_error_app_new h2 _))
       as (ox & Hx & Kx). rewrite Ho3 in Hx. inversion Hx; subst ox. exact Kx. }
-  destruct (dc_entries_spec (length h3) _ _ _ _ E W3 (le_n _) (closed_above_len h3)) as (X4 & W4 & C4 & K4 & Keys).
+  destruct (dc_entries_pol_spec _ (length h3) _ _ _ _ E W3 (le_n _) (closed_above_len h3)) as (X4 & W4 & C4 & K4 & Keys).
   pose proof (ext_length _ _ X4) as L4.
   assert (Eo3 : o' = o3).
   { rewrite (ext_nth _ _ _ X4) in Eo' by lia. rewrite Ho3 in Eo'. inversion Eo'; reflexivity. }
@@ -260,7 +260,7 @@ Proof.
     { intros l Hl. assert (l < N)%nat; [|lia]. eapply W; [exact Ho|].
       unfold refs in *. cbn [ocells] in Hl. apply in_flat_map in Hl as (cx & Hc & Hl). apply filter_In in Hc as [Hc _].
       apply in_flat_map. exists cx. auto. }
-    pose proof (dc_entries_sim _ _ _ _ E W3 Bo) as Sim.
+    pose proof (dc_entries_pol_sim _ _ _ _ _ E W3 Bo) as Sim.
     intros k. unfold X. cbn [ocells]. rewrite (cell_get_dict_update _ _ _ NDf).
     destruct (Z.eq_dec k KP) as [->|Nk].
     + (* the submodels dict *)
